@@ -26,7 +26,8 @@ RULE = (
     "and back through to_cartesian; poles: full product orientation alphabet (408 letters quick) x hkl(6) x "
     "ref_axes(6), once as one (N,3,3) array and once grain by grain, plus the 9 pinned example files; "
     "lambert: all letters of 5 unit-vector blocks and 3 disk blocks x 2 hemispheres x 2 liftings; density: "
-    "full product kernel(5) x data set(14) x gridsteps{5,21,101} x weight(5) x axial{T,F}, each case = base "
+    "full product kernel(5) x data set(14) x gridsteps{5,21,101} x weight(5) x axial{T,F} (+ a 40000-point set x "
+    "kernel(5) x gridsteps{5,21} x weight(2) x axial{T,F}), each case = base "
     "call + all distinct data permutations (reverse, rotate, stride) + sign flips of single data (every "
     "datum, all data, even-indexed data; at 101 grid steps in the quick tier the middle datum and the "
     "even-indexed data, permutations reverse and stride). A point is non-trivial for "
@@ -221,6 +222,8 @@ def dataset(name):
         return normal(30, 2 if name == "gen30" else 5)
     if name == "gen300":
         return normal(300, 3)
+    if name == "gen40k":
+        return normal(40000, 9)
     if name in ("clus30", "clus30b"):
         c = G0 if name == "clus30" else np.array([0.0, 0.0, -1.0])
         return unit(c + 0.1 * np.random.default_rng(2000 + 10 * seed + (4 if name == "clus30" else 6)).normal(size=(30, 3)))
@@ -304,6 +307,13 @@ def gen_cases(tier, seed):
                 for ax in (1, 0):
                     for g in GRIDS:
                         keys.append(dict(part="density", kernel=kn, data=ds, grid=g, w=w, axial=ax))
+    # a large data set (n / sigma^2 = 400 at the default smoothing: the exponential kernel's
+    # factor f = 2 (1 + n / sigma^2) is beyond the range of exp; seed C20d) on the two small grids
+    for kn in KERNELS:
+        for w in ("1", "2.5"):
+            for ax in (1, 0):
+                for g in (5, 21):
+                    keys.append(dict(part="density", kernel=kn, data="gen40k", grid=g, w=w, axial=ax))
     return keys
 
 
